@@ -4,7 +4,7 @@ import time
 from vlib import common, hjmc
 from vlib.common import Report, Violation, HarnessError
 
-QUICK_BOUNDS = [(1, 3, 1, 1), (2, 2, 1, 1), (3, 1, 1, 1)]
+QUICK_BOUNDS = [(1, 3, 1, 1), (2, 2, 1, 1), (3, 1, 1, 1), (2, 2, 2, 1)]
 THOROUGH_BOUNDS = [(1, 4, 3, 2), (2, 2, 2, 2), (2, 3, 1, 1), (3, 1, 2, 1)]
 HUGE_BOUNDS = [(3, 2, 1, 1)]      # 2.0e6 states, ~10 min: C02 and C08 thorough only
 
@@ -50,14 +50,42 @@ def explore(rep, want, bounds_list, prefixes, max_states=None):
     return tot
 
 
+def probe_long_cards(rep, prefixes):
+    """single deviations from long real competitions (15 athletes, 14 heights): every prefix x every alphabet call"""
+    from data import hj_cards
+    tot = dict(prefixes=0, probes=0, accepted=0, refused=0, lockstep=0)
+    for name, card in hj_cards.CARDS.items():
+        st, viol = hjmc.probe_long(name, card)
+        for k in tot:
+            tot[k] += st[k]
+        rep.part('long competition %s (%d athletes, %d heights)' % (name, len(card['cards']), len(card['heights'])), **st)
+        seen = {}
+        for sig, hist, msg in viol:
+            if sig.startswith(tuple(prefixes)) and seen.get(sig, 0) < 5:
+                seen[sig] = seen.get(sig, 0) + 1
+                rep.add_violation(Violation(sig, dict(competition=name, history=[[k, str(a)] for k, a in hist]), msg))
+    c = rep.coverage
+    c['long_competition_prefixes'] = tot['prefixes']
+    c['long_competition_probes'] = tot['probes']
+    c['evaluations'] = c.get('evaluations', 0) + tot['probes']
+    c['traces_validated_against_impl'] = c.get('traces_validated_against_impl', 0) + tot['lockstep']
+    return tot
+
+
 def replay_history(rec, want):
     """Plain re-execution of a recorded history on the public API, printing what happens."""
     case = rec['case']
     hist = [tuple(c) for c in case['history']]
     comp, model = hjmc.new_comp(), hjmc.Model()
     RuleViolation = hjmc.RV()
+    longc = 'competition' in case
+    if longc:
+        from decimal import Decimal
+        from data import hj_cards
+        order = {b: i + 1 for i, (b, _) in enumerate(hj_cards.CARDS[case['competition']]['cards'])}
+        hist = [(k, Decimal(a) if k == 'bar' else a) for k, a in hist]
     for call in hist:
-        err = hjmc.apply_call(comp, call)
+        err = hjmc._apply_long(comp, call, order) if longc else hjmc.apply_call(comp, call)
         print('%-14r -> %s   [state %s, rules: %s]' % (call, 'accepted' if err is None else '%s: %s' % (type(err).__name__, err),
                                                       comp.state, model.allowed(call)))
         if err is None:
